@@ -300,7 +300,7 @@ def c16_r5(ctx):
     sts = pm.stmts_of(pr.node)
     rets = [r.value for r in returns_of(pr)]
     ok = PA.has(sts, "q = nodes.query(self)") and PA.has(sts, "q = query.NullQuery") and PA.has(sts, "q = q.normalize()") and \
-        len(rets) == 1 and PA.eq(rets[0], "q")
+        len(rets) >= 1 and all(PA.eq(r, "q") for r in rets)
     ctx.ob(pr, ok, "parse() returns NullQuery for nothing and normalizes the result")
 
 
